@@ -126,4 +126,13 @@ class ThinPlateSplines(Alignment, Transform, Invertible):
 
         :type: ``type(self)``
         """
-        return ThinPlateSplines(self.target, self.source, kernel=self.kernel)
+        # the kernel of the reverse fit has to be centred on the reverse
+        # fit's own source (this transform's target)
+        kernel = self.kernel.copy()
+        kernel.c = self.target.points
+        return ThinPlateSplines(
+            self.target,
+            self.source,
+            kernel=kernel,
+            min_singular_val=self.min_singular_val,
+        )
